@@ -46,11 +46,34 @@ func (hn *harness) finalCheck(in *inst, def *dagDef, skip map[string]bool, rr *r
 			fs = append(fs, finding{"final/latest-status-error", p})
 			continue
 		}
+		who := ""
+		if i > 0 {
+			who = "(client-that-saw-the-run-alive)"
+		}
 		for _, f := range checkFinal(def, st, serr, m, runs[0].ID8) {
-			if i > 0 {
-				f.Kind += "(client-that-saw-the-run-alive)"
+			fs = append(fs, finding{f.Kind + who, tag + ": " + f.Detail})
+		}
+		// the run looked up by its id, and the newest entry of the history, are that final status too
+		if last := runs[0].last(); last != nil {
+			var byID *model.Status
+			var berr error
+			if p := safely("GetStatusByRequestID", func() { byID, berr = cli.GetStatusByRequestID(d, last.RequestID) }); p != "" {
+				fs = append(fs, finding{"final/latest-status-error", p})
+			} else {
+				for _, f := range checkFinal(def, byID, berr, m, runs[0].ID8) {
+					fs = append(fs, finding{f.Kind + "(by-request-id)" + who, tag + ": GetStatusByRequestID: " + f.Detail})
+				}
 			}
-			fs = append(fs, finding{f.Kind, tag + ": " + f.Detail})
+			var hist []*model.StatusFile
+			if p := safely("GetRecentHistory", func() { hist = cli.GetRecentHistory(d, 1) }); p != "" {
+				fs = append(fs, finding{"final/latest-status-error", p})
+			} else if len(hist) != 1 || hist[0] == nil {
+				fs = append(fs, finding{"final/state-mismatch/not-in-history" + who, fmt.Sprintf("%s: GetRecentHistory(1) returns %d entries after the run", tag, len(hist))})
+			} else {
+				for _, f := range checkFinal(def, hist[0].Status, nil, m, runs[0].ID8) {
+					fs = append(fs, finding{f.Kind + "(history)" + who, tag + ": GetRecentHistory(1): " + f.Detail})
+				}
+			}
 		}
 	}
 	// what is reported must be what was persisted last
@@ -199,6 +222,13 @@ func (hn *harness) live(g *group, mb member, verbose bool) error {
 		}
 		if len(fs) == 0 {
 			break
+		}
+	}
+	// the same client also reads the run's history while it is alive (the web UI's history tab): what it
+	// caches now must not stand in the way of the final status later
+	for _, op := range []string{"history1", "historyAll", "byRequestID"} {
+		if p := doRead(cli, d, def.Name, op, wantID); p != "" {
+			fs = append(fs, finding{"live/latest-status-error/panic", p})
 		}
 	}
 	res.Evaluations++
